@@ -15,20 +15,22 @@
   `DV.GaussInt`, the type the compiled model runs at in the correspondence check, is such a
   ring (Proofs/GaussInt.lean), built on the model's own `+ * 0 1 conj`.
 
-  PROVED: both forms of every clause — on multi-indices (`*_entry`) and on flattened matrices
+  PROVED (every clause of the property, for all dimension tuples):
+  both forms of each clause — on multi-indices (`*_entry`) and on flattened matrices
   (`*_matrix`, `tensor_kron`) — for then, tensor, dagger, id, swap; well-formedness of all
   results; refusal of `>>` exactly on a type mismatch; the laws as EQUALITIES of tensors
   (`interchange_law`, `swap_natural`, `dagger_then`, `dagger_tensor`, `dagger_dagger`, unit
-  laws, associativity of `>>` and `@`); both snake equations for single-wire cups/caps of every dimension `n`
-  (`snake_l_single`, `snake_r_single`), where `Tensor.cups [n] [n]` is shown to be the cup of
-  tensor.py:223-224.
+  laws, associativity of `>>` and `@`); `Tensor.cups(l, r)` is defined exactly for adjoint
+  tuples and is the Kronecker delta `a = reversed(b)` (`cups_spec`: closed form of the nested
+  loop of rigid.py:449-454); BOTH snake equations for cups/caps of every multi-wire type
+  (`snake_multiwire`), and their single-wire instances (`snake_l_single`, `snake_r_single`).
 
-  NOT PROVED (`snake_multiwire`, a `def … : Prop`, no theorem claims it): the snake equations
-  for the cups/caps of MULTI-wire types, which the code builds by nesting single-wire cups
-  (rigid.py:449-454).  That clause rests on the oracle of harness/props/c08.py only.
+  Nothing of the statement is left unproved for the model.  Outside the theorems: numpy itself
+  (`tensordot`, `moveaxis`, `reshape`, `identity`, `conjugate` are modelled and validated by the
+  `numpy-prims` correspondence stream), floating point (the theorems are over exact rings).
 -/
 import Proofs.TensorMatrix
-import Proofs.TensorSnake
+import Proofs.TensorSnakeMulti
 import Proofs.GaussInt
 
 namespace DV.C08
@@ -212,14 +214,37 @@ theorem snake_r_single (n : Nat) (cup cap : Tensor R)
   cases h1; cases h2
   rw [then_ok (by rfl), Tensor.snake_r [n]]
 
-/-- FULL statement of the snake clause (NOT proved; checked by the oracle only): for every
-    dimension tuple `l`, the nested cups/caps of the code satisfy both snake equations. -/
-def snake_multiwire : Prop :=
-  ∀ (l : List Nat) (cup cap cup' cap' : Tensor R),
-    Tensor.cups l l.reverse = .ok cup → Tensor.caps l.reverse l = .ok cap →
-    Tensor.cups l.reverse l = .ok cup' → Tensor.caps l l.reverse = .ok cap' →
+/-- `Tensor.cups(l, r)` is defined exactly for adjoint dimension tuples (`r = l[::-1]`,
+    tensor.py:79-84), and is then a well-formed tensor `l ⊗ r → 1` whose entries are the
+    Kronecker delta `a = reversed(b)` (closed form of the nested loop of rigid.py:449-454). -/
+theorem cups_spec (l r : List Nat) :
+    (r ≠ l.reverse → Tensor.cups (R := R) l r = .error .axiom) ∧
+    (r = l.reverse → ∃ t, Tensor.cups (R := R) l r = .ok t ∧ t.WF ∧ t.dom = l ++ r ∧ t.cod = [] ∧
+      ∀ a b, InRange l a → InRange r b →
+        t.entry ((a ++ b) ++ []) = if a = b.reverse then 1 else 0) := by
+  refine ⟨(Tensor.cups_spec l r).2, ?_⟩
+  rintro rfl
+  exact Tensor.cups_entry l
+
+/-- **Both snake equations for cups and caps of EVERY (multi-wire) dimension tuple**:
+    `(id_l ⊗ caps(l.r, l)) ≫ (cups(l, l.r) ⊗ id_l) = id_l` and
+    `(caps(l, l.r) ⊗ id_l) ≫ (id_l ⊗ cups(l.r, l)) = id_l`, with `l.r = l[::-1]`. -/
+theorem snake_multiwire (l : List Nat) (cup cap cup' cap' : Tensor R)
+    (h1 : Tensor.cups l l.reverse = .ok cup) (h2 : Tensor.caps l.reverse l = .ok cap)
+    (h3 : Tensor.cups l.reverse l = .ok cup') (h4 : Tensor.caps l l.reverse = .ok cap') :
     ((Tensor.id l).tensor cap).then (cup.tensor (Tensor.id l)) = .ok (Tensor.id l) ∧
-    (cap'.tensor (Tensor.id l)).then ((Tensor.id l).tensor cup') = .ok (Tensor.id l)
+    (cap'.tensor (Tensor.id l)).then ((Tensor.id l).tensor cup') = .ok (Tensor.id l) := by
+  obtain ⟨c1, c2, e1, e2, e3⟩ := Tensor.snake_multi (R := R) l
+  obtain ⟨c3, c4, e4, e5, e6⟩ := Tensor.snake_multi' (R := R) l
+  rw [h1] at e1; rw [h2] at e2; rw [h4] at e4; rw [h3] at e5
+  cases e1; cases e2; cases e4; cases e5
+  have hd1 := (Tensor.cups_ok h1)
+  have hd3 := (Tensor.cups_ok h3)
+  have hd2 := (Tensor.caps_ok h2)
+  have hd4 := (Tensor.caps_ok h4)
+  refine ⟨?_, ?_⟩
+  · rw [then_ok (by simp [hd1.2.1, hd2.2.2, List.append_assoc]), e3]
+  · rw [then_ok (by simp [hd3.2.1, hd4.2.2, List.append_assoc]), e6]
 
 end star
 
